@@ -67,23 +67,31 @@ def emitName (o : S2tOpts) (name : Bytes) : Bytes :=
   | some r => r ++ [SL] ++ n1
   | none => n1
 
-/-- the `for (;;)` loop of `next` over the listing; `ign` = the directory `ignore_subdir` was called on, if any -/
+/-- what one round of the `for (;;)` loop of `next` does with the entry the source iterator delivered -/
+inductive CompatAction
+  | emit (e : RawEnt)        -- `break`: hand it out (renamed)
+  | skip                     -- `continue` / not kept, not a directory
+  | ignoreBelow              -- not kept and a directory: `ignore_subdir`
+
+def compatStep (o : S2tOpts) (e : RawEnt) : CompatAction :=
+  if keepEntry o.subdirs e.name then
+    let skipSelf : Bool := match o.subdirs with                                             -- iterator.c:127-131
+      | [p] => !o.keepAsDir && decide (e.name.length ≤ p.length)
+      | _ => false
+    if skipSelf then .skip else .emit { e with name := emitName o e.name }
+  else if fmt e.mode = S_IFDIR then .ignoreBelow                                            -- iterator.c:135-136
+  else .skip
+
+/-- the `for (;;)` loop of `next` over the listing; `ign` = the directory `ignore_subdir` was called on, if any (the recursive
+    source iterator then delivers nothing below it) -/
 def compatLoop (o : S2tOpts) : Option Bytes → List RawEnt → List RawEnt
   | _, [] => []
   | ign, e :: rest =>
-    match ign with
-    | some d => if isBelow d e.name then compatLoop o ign rest else compatStep e rest
-    | none => compatStep e rest
-where
-  compatStep (e : RawEnt) (rest : List RawEnt) : List RawEnt :=
-    if keepEntry o.subdirs e.name then
-      let skipSelf : Bool := match o.subdirs with                                           -- iterator.c:127-131
-        | [p] => !o.keepAsDir && decide (e.name.length ≤ p.length)
-        | _ => false
-      if skipSelf then compatLoop o none rest
-      else { e with name := emitName o e.name } :: compatLoop o none rest
-    else if fmt e.mode = S_IFDIR then compatLoop o (some e.name) rest                       -- `ignore_subdir`
-    else compatLoop o none rest
+    if (match ign with | some d => isBelow d e.name | none => false) then compatLoop o ign rest
+    else match compatStep o e with
+      | .emit e' => e' :: compatLoop o none rest
+      | .skip => compatLoop o none rest
+      | .ignoreBelow => compatLoop o (some e.name) rest
 
 /-- `lib/sqfs/src/io/dir_hl.c: next` over the entries of the iterator below it; `seen` = the red-black tree (inode → name) -/
 def hlFilter : List (Nat × Bytes) → List RawEnt → List RawEnt
